@@ -160,5 +160,27 @@ def scenarios(mlr):
     add("stdout-devfull-pprint", None, {"in.dkvp": recs}, shell="%s --opprint cat in.dkvp > /dev/full" % mlr)
     add("stdout-devfull-print", None, {"in.dkvp": recs}, shell="%s put -q 'print $a' in.dkvp > /dev/full" % mlr)
     add("stdout-devfull-end-emit", None, {"in.dkvp": recs}, shell="%s put -q '@s=$a; end{emit @s}' in.dkvp > /dev/full" % mlr)
+    # every output format x record size (a record bigger than the output buffer goes to the file in one piece) x
+    # where the text comes from x flush policy
+    for size, stag in ((6, "small"), (6000, "6k"), (70000, "70k")):
+        wide = "".join("a=%d,b=%s\n" % (i, "x" * size) for i in range(1, 4))
+        for of in ("--ojson", "--ojsonl", "--ocsv", "--otsv", "--oxtab", "--onidx", "--opprint", "--omd", "--odkvp"):
+            add("stdout-devfull-%s-%s" % (of[3:], stag), None, {"in.dkvp": wide}, key="stdout-devfull-wide",
+                shell="%s %s cat in.dkvp > /dev/full" % (mlr, of))
+        for fl in ("--fflush", "--no-fflush", "--records-per-batch 1"):
+            add("stdout-devfull-%s-%s" % (fl.strip("-").replace(" ", ""), stag), None, {"in.dkvp": wide}, key="stdout-devfull-wide",
+                shell="%s %s --ojsonl cat in.dkvp > /dev/full" % (mlr, fl))
+        add("stdout-devfull-print-%s" % stag, None, {"in.dkvp": wide}, key="stdout-devfull-wide",
+            shell="%s put -q 'print $b' in.dkvp > /dev/full" % mlr)
+        add("stdout-devfull-printn-%s" % stag, None, {"in.dkvp": wide}, key="stdout-devfull-wide",
+            shell="%s put -q 'printn $b' in.dkvp > /dev/full" % mlr)
+        add("stdout-devfull-dump-%s" % stag, None, {"in.dkvp": wide}, key="stdout-devfull-wide",
+            shell="%s put -q '@s[NR] = $b; end {dump}' in.dkvp > /dev/full" % mlr)
+        add("stdout-devfull-emit-end-%s" % stag, None, {"in.dkvp": wide}, key="stdout-devfull-wide",
+            shell="%s put -q '@s[NR] = $b; end {emit @s}' in.dkvp > /dev/full" % mlr)
+        add("stdout-devfull-tee-stdout-%s" % stag, None, {"in.dkvp": wide}, key="stdout-devfull-wide",
+            shell="%s put -q 'tee > stdout, $*' in.dkvp > /dev/full" % mlr)
+        add("stdout-devfull-chain-%s" % stag, None, {"in.dkvp": wide}, key="stdout-devfull-wide",
+            shell="%s cat then tac then put '$c = 1' in.dkvp > /dev/full" % mlr)
     add("stdout-closed", None, {"in.dkvp": recs}, shell="%s cat in.dkvp >&-" % mlr)
     return S
